@@ -24,6 +24,7 @@ observed by the stream's monitor, not proved.
 -/
 import SmVerif.Lemmas.Ownership
 import SmVerif.Lemmas.OwnObj
+import SmVerif.Lemmas.OwnObjWF
 
 namespace Sm.C15
 
@@ -314,11 +315,95 @@ theorem inplace_select_returns_self (w : World) (r v c : Nat) (kw : Sel) (rc : V
     (Obj.step w (.vSelect r v kw)).1.views.cells = w.views.cells :=
   Sm.Obj.inplace_select_returns_self' w r v c kw rc hcid hv hk hok
 
+/-! # saves, loaded collections, and the observational theorem -/
+
+/-- every read-only call on a collection view — search, containment search, prefetch, best_containment, gather in both
+    modes, signatures(), manifest export, AND every save (SBT.save to zip / directory storage, LinearIndex.save,
+    SaveSignaturesToLocation to zip / .sig / directory / SQLite, LCA_Database.save as JSON / SQLite,
+    manifest.write_to_filename as CSV / SQLite) — leaves the whole world exactly as it was.  (That is the model's claim;
+    the `vro` ops of the stream run each call twice on the real objects, compare what the collection answers before and
+    after, and the dump after the op must be the unchanged table.  Reverting cd1cfe8 — SBT.save re-homing the nodes —
+    breaks it with `C15:view-changed:sbt-save`.) -/
+theorem view_reads_and_saves_change_nothing (w : World) (name : String) (v : Nat) (qs : List Nat) :
+    (Obj.step w (.vRead name v qs)).1 = w := by
+  simp only [Obj.step]; split <;> rfl
+
+theorem sig_reads_change_nothing (w : World) (name : String) (ss : List Nat) :
+    (Obj.step w (.sRead name ss)).1 = w := by
+  simp only [Obj.step]; split <;> rfl
+
+/-- the well-formedness invariant (every reference held by a handle, a view or a manifest row points to an existing
+    cell) holds in EVERY reachable world … -/
+theorem reachable_wf (ops : List Obj.Op) : (ops.foldl (fun w op => (Obj.step w op).1) World.empty).WF :=
+  Sm.Obj.wf_foldl src! ops World.empty Sm.Obj.wf_empty
+
+theorem wf_preserved (w : World) (hwf : w.WF) (op : Obj.Op) : (Obj.step w op).1.WF :=
+  Sm.Obj.wf_step src! w hwf op
+
+/-- … and in a well-formed world **what a view yields is stable** (the ONE observational theorem): for every view of
+    every kind — in memory, lazy, zip with / without manifest, MultiIndex, standalone manifest, SBT in memory or LOADED
+    from .sbt.zip / .sbt.json (whatever its node cache size), LCA_Database in memory or loaded from JSON, SqliteIndex,
+    LCA_SqliteDatabase — `list(view.signatures())` (contents, frozen flags, order, or the exception raised) is the same
+    before and after EVERY operation of any layer, provided the operation is not invoked on that view (insert, in-place
+    select), nor on the index a lazy view wraps, nor on a signature object the view refers to (`deps`) -/
+theorem view_obs_stable (w : World) (hwf : w.WF) (op : Obj.Op) (c : Nat) (vc : ViewCell)
+    (hc : w.views.cells[c]? = some vc)
+    (hv : ∀ v cv, viewReceiver op = some v → w.views.cid v = some cv → cv ≠ c ∧ (vc.kind = .lazy → cv ≠ vc.db))
+    (hs : ∀ s cs, sigReceiver op = some s → w.sigs.cid s = some cs → cs ∉ deps w vc) :
+    (Obj.step w op).1.views.cells[c]? = some vc ∧ viewSigs (Obj.step w op).1 vc = viewSigs w vc :=
+  Sm.Obj.view_obs_stable' src! w hwf op c vc hc hv hs
+
+/-- corollary for everything read back from disk (and for an LCA_Database, which copies values in): no signature object
+    is referred to, so NOTHING done to any signature or sketch object, and nothing done through any other view, changes
+    its answers -/
+theorem disk_view_obs_stable (w : World) (hwf : w.WF) (op : Obj.Op) (c : Nat) (vc : ViewCell)
+    (hc : w.views.cells[c]? = some vc)
+    (hk : vc.kind.usesStore = true ∨ vc.kind = .lca)
+    (hv : ∀ v, viewReceiver op = some v → w.views.cid v ≠ some c) :
+    viewSigs (Obj.step w op).1 vc = viewSigs w vc := by
+  refine (Sm.Obj.view_obs_stable' src! w hwf op c vc hc ?_ ?_).2
+  · intro v cv hr e
+    refine ⟨fun h => hv v hr (h ▸ e), fun hl => ?_⟩
+    rcases hk with hk | hk <;> simp [hl, VKind.usesStore] at hk
+  · intro s cs _ _ hmem
+    have : deps w vc = [] := by
+      rcases hk with hk | hk <;> cases hkk : vc.kind <;> simp_all [deps, VKind.usesStore]
+    rw [this] at hmem
+    cases hmem
+
+/-- what the loaders hand out.  Zip collections (with / without manifest) and standalone manifests: a NEW, FROZEN
+    signature on every call -/
+theorem loaders_hand_out_frozen_partial (w : World) (r v i : Nat) (vc : ViewCell) (hv : w.views.cell v = some vc)
+    (hk : vc.kind = .zipnm ∨ vc.kind = .zipm ∨ vc.kind = .standalone)
+    (hok : (Obj.step w (.vGet r v i)).2 = .ok) :
+    ∃ val, (Obj.step w (.vGet r v i)).1.sigs = w.sigs.alloc r ⟨val, true⟩ := by
+  obtain ⟨l, o, hl, ho, hs⟩ := Sm.Obj.vGet_disk w r v i vc hv
+    (by rcases hk with h | h | h <;> simp [h, VKind.holdsObjects])
+    (by rcases hk with h | h | h <;> simp [h, VKind.readsInOrder]) hok
+  have := Sm.Obj.viewSigs_frozen w vc l hk hl o ho
+  exact ⟨o.2, by rw [hs, this]⟩
+
+/- FULL STATEMENT (not proved / false of the code as found): the same for EVERY loader.
+   `SqliteIndex._load_sketch` / `_load_sketches` return a plain `SourmashSignature`: what a SqliteIndex (and an
+   LCA_SqliteDatabase) hands out is a new object on every call, but MUTABLE (finding C15.3, candidate patch
+   patches/C15.3-…).  The model follows the source (`Gen.ownSqliteHandsOutMutable`, re-read every run): -/
+theorem sqlite_loader_hands_out_what_the_source_says (w : World) (r v i : Nat) (vc : ViewCell)
+    (hv : w.views.cell v = some vc) (hk : vc.kind = .sqlite)
+    (hok : (Obj.step w (.vGet r v i)).2 = .ok) :
+    ∃ val, (Obj.step w (.vGet r v i)).1.sigs = w.sigs.alloc r ⟨val, !Gen.ownSqliteHandsOutMutable⟩ := by
+  obtain ⟨l, o, hl, ho, hs⟩ := Sm.Obj.vGet_disk w r v i vc hv
+    (by simp [hk, VKind.holdsObjects]) (by simp [hk, VKind.readsInOrder]) hok
+  have := Sm.Obj.viewSigs_sqlite w vc l (.inl hk) hl o ho
+  exact ⟨o.2, by rw [hs, this]⟩
+
 /-! ### exhibits and non-vacuity (kernel-checked) -/
 
 /-- the names a view yields -/
 def namesOf (w : World) (v : Nat) : Option (List String) :=
-  (w.views.cell v).bind (fun vc => (viewSigs w vc).map (·.map (·.2.name)))
+  (w.views.cell v).bind (fun vc =>
+    match viewSigs w vc with
+    | .ok l => some (l.map (·.2.name))
+    | .error _ => none)
 
 def runOps (ops : List Obj.Op) : World := ops.foldl (fun w op => (Obj.step w op).1) World.empty
 
@@ -362,6 +447,17 @@ example :
     (Obj.step w (.mh (.add 1 7))).2 = .err "TypeError" ∧
     (Obj.step w (.mh (.add 0 7))).2 = .ok ∧
     (((Obj.step w (.mh (.add 0 7))).1.sigs.cell 0).map (·.val.mh.mins)) = some [5] := by
+  decide +kernel
+
+/-- an SBT loaded from disk, narrowed in place, next to a SqliteIndex whose select copies: saves and searches in
+    between change neither; the world stays well-formed -/
+example :
+    let w := runOps [.mh (.new 0 0 1 false), .mh (.addMany 0 [5]), .mh (.new 1 0 1 false), .mh (.addMany 1 [7]),
+                     .sNew 0 0 "a" "", .sNew 1 1 "b" "",
+                     .vSbtLoad 0 0 1 [0, 1], .vSqlite 1 [0, 1], .vRead "save" 0 [0], .vSelectPick 2 0 ["a"],
+                     .vSelect 3 1 [(0, some 31)], .vRead "gather" 1 [0], .sSetName 0 "z"]
+    namesOf w 0 = some ["a"] ∧ w.views.cid 2 = w.views.cid 0 ∧
+    namesOf w 1 = some ["a", "b"] ∧ namesOf w 3 = some [] ∧ w.views.cid 3 ≠ w.views.cid 1 := by
   decide +kernel
 
 end Sm.C15
